@@ -303,6 +303,46 @@ def _topologies():
     g.output(g.binary('ADD', a, b, 'y'))
   add('split_add', split_then)
 
+  def split_one_unused(mb, g):
+    x = g.input('x', (1, 4))
+    a, b = g.split(x, ['s0', 's1'])   # s1 is neither consumed nor exported
+    g.output(g.unary('TANH', a, 'y'))
+  add('split_one_result_unused', split_one_unused)
+
+  def unused_input(mb, g):
+    x = g.input('x', (1, 2))
+    g.input('unused', (1, 2))
+    g.output(g.fc(x, 'y'))
+  add('unused_graph_input', unused_input)
+
+  def dead_end_op(mb, g):
+    x = g.input('x', (1, 2))
+    a = g.fc(x, 'fc_out')
+    g.unary('GELU', a, 'dead')        # result never used
+    g.output(g.unary('TANH', a, 'y'))
+  add('dead_end_operator', dead_end_op)
+
+  def output_and_later_consumer(mb, g):
+    x = g.input('x', (1, 2))
+    z = g.input('z', (1, 2))
+    t = g.fc(x, 't')
+    u = g.fc(z, 'u')
+    y = g.binary('ADD', t, u, 'y')
+    g.output(t)
+    g.output(y)
+  add('output_and_later_consumer', output_and_later_consumer)
+
+  def output_and_two_later_consumers(mb, g):
+    x = g.input('x', (1, 2))
+    t = g.unary('TANH', x, 't')
+    u = g.unary('RELU', x, 'u')
+    v = g.fc(u, 'v')
+    w = g.binary('MUL', t, v, 'w')
+    g.output(w)
+    g.output(t)
+    g.output(g.unary('GELU', t, 'y'))
+  add('output_and_two_later_consumers', output_and_two_later_consumers)
+
   def softmax_reshape(mb, g):
     x = g.input('x', (1, 2))
     g.output(g.reshape(g.unary('SOFTMAX', x, 'sm'), 'y', (2, 1)))
@@ -337,16 +377,87 @@ def _topologies():
   return out
 
 
+def random_dag(rng, n_ops, idx):
+  """A random DAG over a representative kind table (weights+bias, fixed
+  range, same-as-input, same-as-output, binary elementwise, unsupported op,
+  two outputs), every tensor of shape (1, 2k); random set of graph outputs that
+  contains the sinks."""
+  mb = skeletons.ModelBuilder()
+  g = mb.subgraph()
+  avail = [g.input('x', (1, 2))]
+  if rng.random() < 0.5:
+    avail.append(g.input('z', (1, 2)))
+  consumed = set()
+  kinds = ['FC', 'TANH', 'LOGISTIC', 'SOFTMAX', 'RESHAPE', 'CONCAT', 'ADD',
+           'MUL', 'RELU', 'SPLIT', 'GELU', 'MEAN']
+  for k in range(n_ops):
+    kind = kinds[int(rng.integers(len(kinds)))]
+    a = avail[int(rng.integers(len(avail)))]
+    nm = f't{k}'
+    if kind == 'FC':
+      outs = [g.fc(a, nm, units=2, bias=bool(rng.integers(2)))]
+    elif kind in ('TANH', 'LOGISTIC', 'SOFTMAX', 'RELU', 'GELU'):
+      outs = [g.unary(kind, a, nm)]
+    elif kind == 'RESHAPE':
+      outs = [g.reshape(a, nm, g.shapes[a])]
+    elif kind == 'MEAN':
+      outs = [g.mean(a, nm, axis=0)]
+    elif kind == 'SPLIT':
+      if g.shapes[a][-1] % 2:
+        outs = [g.unary('TANH', a, nm)]
+      else:
+        outs = g.split(a, [nm + 'a', nm + 'b'])
+    else:
+      same = [t for t in avail if g.shapes[t] == g.shapes[a]]
+      b = same[int(rng.integers(len(same)))]
+      consumed.add(b)
+      if kind == 'CONCAT':
+        outs = [g.concat([a, b], nm)]
+      else:
+        outs = [g.binary(kind, a, b, nm)]
+    consumed.add(a)
+    avail += outs
+  ops_out = [t for t in avail if t not in g.sg.inputs]
+  sinks = [t for t in ops_out if t not in consumed]
+  extra = [t for t in avail if t not in sinks and rng.random() < 0.25]
+  outs = sinks + extra
+  rng.shuffle(outs)
+  for t in outs:
+    g.output(t)
+  return mb.build()
+
+
+def random_dag_family(seed, n):
+  import numpy as _np
+  rng = _np.random.default_rng(seed)
+  fam = {}
+  for i in range(n):
+    n_ops = int(rng.integers(2, 5))
+    try:
+      fam[f'dag{seed}_{i}_{n_ops}ops'] = random_dag(rng, n_ops, i)
+    except Exception:  # pylint: disable=broad-except
+      continue
+  return fam
+
+
 _CACHE = {}
+N_RANDOM_DAGS = 240
 
 
-def skeleton_family(tier):
+def skeleton_family(tier, seed=None):
   if 'fam' not in _CACHE:
     fam = {}
     for k in SINGLE_KINDS:
       fam['single_' + k] = _single(k)
     fam.update(_topologies())
     _CACHE['fam'] = fam
+  if tier == 'thorough_dags':
+    import os as _os
+    sd = int(_os.environ.get('VERIF_SEED', '0')) if seed is None else seed
+    key = ('dags', sd)
+    if key not in _CACHE:
+      _CACHE[key] = random_dag_family(sd, N_RANDOM_DAGS)
+    return _CACHE[key]
   return _CACHE['fam']
 
 
@@ -436,6 +547,12 @@ def recipe_family(model_bytes, tier, shipped_only=False):
                                        rule(rx, '*', 'SRQ8')]
   if len(scopes) > 1:
     fam['srq8_ops_only_no_io'] = [rule('^(?!$).*', '*', 'SRQ8')]
+    # operator-type rules (every op of one type, nothing else)
+    for name in sorted({n for _, _, _, n in scopes if n}):
+      fam[f'optype:{name}:SRQ8'] = [rule('.*', name, 'SRQ8')]
+      if name in ('FULLY_CONNECTED', 'CONV_2D', 'BATCH_MATMUL',
+                  'EMBEDDING_LOOKUP'):
+        fam[f'optype:{name}:WO'] = [rule('.*', name, 'WO')]
   return fam
 
 
@@ -611,7 +728,10 @@ def concrete_qsvs(model, stats):
 
 def replay_public(skel, rname, stats, tier='thorough'):
   """Runs the public API concretely. Returns (outcome dict)."""
-  fam = skeleton_family(tier)
+  if skel.startswith('dag'):
+    fam = skeleton_family('thorough_dags', int(skel[3:].split('_')[0]))
+  else:
+    fam = skeleton_family(tier)
   model_bytes = fam[skel]
   recipe = recipe_family(model_bytes, 'thorough')[rname]
   inp = flatbuffer_utils.read_model_from_bytearray(bytearray(model_bytes))
